@@ -109,6 +109,7 @@ func (i *interpreter) mapLookup(m *smap, k value, elemT types.Type) (value, valu
 	if e == nil {
 		return zero(elemT), false
 	}
+	e.val = i.reduceVal(e.val)
 	return e.val, true
 }
 
@@ -135,6 +136,7 @@ func (i *interpreter) mapLookupIte(m *smap, k value, elemT types.Type) (value, v
 		}
 		if eq == s.True {
 			// decided by the path condition: keys are pairwise distinct, so this is the entry
+			e.val = i.reduceVal(e.val)
 			vt = i.term(e.val)
 			okt = s.True
 			continue
@@ -150,10 +152,10 @@ func (i *interpreter) mapUpdate(m *smap, k, v value) {
 		panic(runtimeErr("assignment to entry in nil map"))
 	}
 	if e := i.mapFind(m, k); e != nil {
-		e.val = v
+		e.val = i.reduceVal(v)
 		return
 	}
-	e := &mapEntry{key: k, val: v}
+	e := &mapEntry{key: k, val: i.reduceVal(v)}
 	m.entries = append(m.entries, e)
 	m.nlive++
 	if hk, ok := hashKey(k); ok {
